@@ -69,6 +69,11 @@ def build(spec):
             df.index = pd.MultiIndex.from_tuples([tuple(i) for i in idx])
         else:
             df.index = pd.Index(idx)
+    names = spec.get("index_names")
+    if names:  # a named index (what set_index / groupby leave behind); the names are labels, not variables
+        if idx is None:
+            df.index = pd.RangeIndex(len(df))
+        df.index.names = list(names)[: df.index.nlevels] if df.index.nlevels > 1 else [names[0]]
     return df
 
 
